@@ -108,6 +108,34 @@ def equivalent(a, b, ignore=()):
     return None
 
 
+def _base(label):
+    for sep in ('[', ':', '+', '-'):
+        i = label.find(sep)
+        if i > 0:
+            label = label[:i]
+    return label
+
+
+def compare(code, spec):
+    """('equal',) | ('differs', trace, which) | ('foreign', labels).  A difference is a witness
+    only when the code's automaton speaks the specification's alphabet: events the specification
+    does not know at all (a data test of the code's own, typically the bookkeeping of a loop
+    written in another form) mean that the comparison cannot be made -- no verdict"""
+    bases = {_base(l) for l in spec.labels()}
+    foreign = sorted(l for l in code.labels() if _base(l) not in bases)
+    # a test over the parameters and the events' results alone is behaviour the specification
+    # would have to mention: that stays a witness.  A test that involves a value the code's own
+    # loop carries ('name@L<line>': widened at the loop head) is bookkeeping of another loop form
+    if not any('@L' in l for l in foreign):
+        foreign = []
+    diff = equivalent(code, spec)
+    if diff is None:
+        return ('equal',)
+    if foreign:
+        return ('foreign', foreign)
+    return ('differs',) + diff
+
+
 # ---------------------------------------------------------------- specification regexes
 def lit(*labels):
     return ('seq', [('lit', l) for l in labels]) if len(labels) != 1 else ('lit', labels[0])
